@@ -103,8 +103,8 @@ Total(t, m, items, k) == IF k > Len(items) THEN 0 ELSE (IF items[k].f = 0 THEN i
 
 ExecOp(t, m, kc, op, inp, start, s) ==
   CASE op.op = "seek" -> [s EXCEPT !.pos = start + op.a]
-    [] op.op = "align" -> [s EXCEPT !.pos = AlignUp(s.pos, op.a)]
-    [] op.op = "tailalign" -> [s EXCEPT !.pos = AlignUp(s.pos, AlignOf(t, m))]
+    [] op.op = "align" -> [s EXCEPT !.pos = AlignRel(s.pos, start, op.a)]
+    [] op.op = "tailalign" -> [s EXCEPT !.pos = AlignRel(s.pos, start, AlignOf(t, m))]
     [] op.op = "bitreset" -> [s EXCEPT !.unit = << >>, !.rem = 0, !.utype = ""]
     [] op.op = "block" ->
          LET tot == Total(t, m, op.items, 1) IN
